@@ -98,15 +98,15 @@ def _helper_read_crd(lit: LineIterator) -> tuple:
     atmasses = []
     for i in range(natom):
         line = next(lit)
-        words = line.split()
-        resnums.append(int(words[1]))
-        resnames.append(words[2])
-        attypes.append(words[3])
-        pos[i, 0] = float(words[4])
-        pos[i, 1] = float(words[5])
-        pos[i, 2] = float(words[6])
-        segid.append(words[7])
-        resid.append(int(words[8]))
-        atmasses.append(float(words[9]) * amu)
+        # Fixed-width fields: I5,I5,1X,A4,1X,A4,3F10.5,1X,A4,1X,A4,F10.5
+        resnums.append(int(line[5:10]))
+        resnames.append(line[11:15].strip())
+        attypes.append(line[16:20].strip())
+        pos[i, 0] = float(line[20:30])
+        pos[i, 1] = float(line[30:40])
+        pos[i, 2] = float(line[40:50])
+        segid.append(line[51:55].strip())
+        resid.append(int(line[56:60]))
+        atmasses.append(float(line[60:70]) * amu)
     pos *= angstrom
     return resnums, resnames, attypes, pos, segid, resid, atmasses
